@@ -269,12 +269,16 @@ def cases(ctx):
 # ---------------------------------------------------------------------------
 
 def _source_rows(n, mixed=False):
-    keys = [3, 1, 2, 1, 3, 2, 1]
+    # equal keys of different numeric types (1 / 1.0, 3 / 3.0) in rows that land in different chunks, and row labels that fall
+    # while the row number rises: among rows with equal keys the arrival order is then the reverse of the rows' own order, so a
+    # chunk merge that breaks ties by anything but chunk order (or does not see 1 and 1.0 as a tie) yields another sequence
+    # than the in-memory sort
+    keys = [3, 1, 2, 1.0, 3.0, 2, 1]
     if mixed:
         # None, text and numbers in the key column, and a row longer than the header: what a whole-row (key=None) sort has to order
         keys = [3, None, 'b', 1, 3, None, 2]
-        return [['k', 'v', 'id']] + [[keys[i % len(keys)], 'v%d' % (i % 2), 'r%d' % i] + (['extra', i % 2] if i % 3 == 2 else []) for i in range(n)]
-    return [['k', 'v', 'id']] + [[keys[i % len(keys)], 'v%d' % (i % 2), 'r%d' % i] for i in range(n)]
+        return [['k', 'v', 'id']] + [[keys[i % len(keys)], 'v%d' % (i % 2), 'r%d' % (40 - i)] + (['extra', i % 2] if i % 3 == 2 else []) for i in range(n)]
+    return [['k', 'v', 'id']] + [[keys[i % len(keys)], 'v%d' % (i % 2), 'r%d' % (40 - i)] for i in range(n)]
 
 
 def _build(case, rows, fail, failpass, kw):
@@ -290,7 +294,7 @@ def _build(case, rows, fail, failpass, kw):
     if tgt == 'join':
         return petl.join(src, other, key='k', **kw)
     if tgt == 'complement':
-        return petl.complement(src, [['k', 'v', 'id'], [3, 'v0', 'r0'], [9, 'v', 'r']], **kw)
+        return petl.complement(src, [['k', 'v', 'id'], [3, 'v0', 'r40'], [9, 'v', 'r']], **kw)
     if tgt == 'distinct':
         return petl.distinct(src, 'k', **kw)
     if tgt == 'aggregate':
